@@ -15,6 +15,7 @@ type GenOpts struct {
 	MaxOut             int
 	Overwrite          bool // allow gates to overwrite intermediate wires
 	TwoParty           bool // split inputs into exactly two arguments
+	AllowEmptyParty    bool // with TwoParty: sometimes give one party a 0-bit argument
 }
 
 func uintInfo(bits int) types.Info {
@@ -100,6 +101,14 @@ func GenCircuit(r *RNG, o GenOpts) *circuit.Circuit {
 		a := ni / 2
 		if ni >= 2 {
 			a = r.Range(1, ni-1)
+		}
+		if o.AllowEmptyParty && r.Intn(6) == 0 {
+			// one party contributes no input bits (e.g. an empty array argument)
+			if r.Bool() {
+				a = ni
+			} else {
+				a = 0
+			}
 		}
 		c.Inputs = circuit.IO{{Name: "a", Type: uintInfo(a)}, {Name: "b", Type: uintInfo(ni - a)}}
 	} else if ni >= 2 && r.Bool() {
